@@ -151,3 +151,6 @@ PROPS["C19"] = dict(
     assumptions=["TLC checks the equations (Laws) on the reference definitions in TwigSem over the same input space",
                  "string lists for sort use strings on which every sensible collation agrees; map results are compared order-free"],
 )
+
+import c01
+PROPS["C01"] = dict(run=c01.run, replay=c01.replay)
